@@ -119,7 +119,8 @@ def lname(py: str) -> str:
 def lean_type(ty) -> str:
     simple = {"int": "Int", "bool": "Bool", "bytes": "List Nat", "str": "List Nat", "none": "Unit",
               "msg": "Msg", "control": "Control", "filter": "Filter", "cred": "Cred", "result": "LdapResult",
-              "attr": "(List Nat × List (List Nat))", "state": "SessionState", "optmsg": "Option Msg"}
+              "attr": "(List Nat × List (List Nat))", "state": "SessionState", "optmsg": "Option Msg",
+              "reader": "List Nat"}
     if isinstance(ty, str):
         if ty in simple:
             return simple[ty]
@@ -276,6 +277,7 @@ class Env:
         self.dropped: set[str] = set()          # str-valued locals that only feed exception texts
         self.dead: set[str] = set()             # message locals handed to a method that mutates them
         self.exc: dict[str, tuple[str, list[str]]] = {}   # caught exception variable -> (class, fields)
+        self.reader_src: dict[str, str] = {}    # ASN1Reader local -> the bytearray FIELD it views (if any)
 
     def copy(self):
         e = Env()
@@ -284,6 +286,7 @@ class Env:
         e.dropped = set(self.dropped)
         e.dead = set(self.dead)
         e.exc = dict(self.exc)
+        e.reader_src = dict(self.reader_src)
         return e
 
 
@@ -491,6 +494,8 @@ class MethodTranslator:
         self.extras: list[tuple[str, str]] = []
         self.aux_defs: list[list[str]] = []
         self.nfor = 0
+        self.nwhile = 0
+        self.for_cache = {}
         self.nabs = 0
         self.ntmp = 0
         self.mutates: set[int] = set()
@@ -619,16 +624,104 @@ class MethodTranslator:
     def mentions_opaque(self, st) -> bool:
         return any(isinstance(n, ast.Name) and n.id in OPAQUE_NAMES for n in ast.walk(st))
 
+    # -- dropped texts must be effect-free (audit item S3) -------------------------------------------------
+    TEXT_PURE_CALLS = ("str", "repr", "len", "type", "int", "hex", "sorted", "list", "tuple", "bool")
+    TEXT_PURE_ATTRS = ("name", "value", "__name__", "__class__", "__qualname__")
+
+    def check_text(self, node, env):
+        """Every expression that is evaluated only for a DROPPED text (f-string pieces, the message argument of an
+        exception constructor, the test of an `if` that only extends a text) must be effect-free and must not be
+        able to raise something else: names bound here, attributes the translator itself can type (fields of
+        `self`, dataclass fields under a dominating isinstance test, enum members), `.name` / `.value` /
+        `__name__` of such a value, constants, subscripts, comparisons, arithmetic, and calls to a small
+        whitelist of builtins (`str`, `repr`, `len`, `type`, `int`, `hex`, `sorted`, `list`, `tuple`, `bool`,
+        `"..".join`).  Anything else (`.pop()`, `.clear()`, `.add()`, `.remove()`, unknown functions, unknown
+        attributes, comprehensions, walrus, await, lambda ...) puts the whole method outside the subset."""
+        def bad(n, why):
+            raise Unsupported(n, f"dropped exception text is not provably effect-free: {why} in `{ast.unparse(n)}`")
+        if node is None or isinstance(node, ast.Constant):
+            return
+        if isinstance(node, ast.JoinedStr):
+            for v in node.values:
+                self.check_text(v, env)
+            return
+        if isinstance(node, ast.FormattedValue):
+            self.check_text(node.value, env)
+            self.check_text(node.format_spec, env)
+            return
+        if isinstance(node, ast.Name):
+            if not isinstance(node.ctx, ast.Load):
+                bad(node, "a store")
+            if node.id in env.vars or node.id in env.dropped or node.id == "self" \
+                    or (node.id in env.exc and not node.id.startswith("__")):
+                return
+            bad(node, f"name {node.id} is not bound in the method")
+        if isinstance(node, ast.Attribute):
+            if node.attr in self.TEXT_PURE_ATTRS:
+                return self.check_text(node.value, env)
+            try:
+                _, _, pre = self.expr(node, env)
+            except Unsupported as u:
+                bad(node, f"attribute the translator cannot type ({u})")
+            if pre:
+                bad(node, "a raising operation")
+            return
+        if isinstance(node, ast.Subscript):
+            self.check_text(node.value, env)
+            return self.check_text(node.slice, env)
+        if isinstance(node, ast.Slice):
+            for x in (node.lower, node.upper, node.step):
+                self.check_text(x, env)
+            return
+        if isinstance(node, (ast.Tuple, ast.List)):
+            for x in node.elts:
+                self.check_text(x, env)
+            return
+        if isinstance(node, ast.Compare):
+            for x in [node.left] + list(node.comparators):
+                self.check_text(x, env)
+            return
+        if isinstance(node, ast.BinOp):
+            self.check_text(node.left, env)
+            return self.check_text(node.right, env)
+        if isinstance(node, ast.BoolOp):
+            for x in node.values:
+                self.check_text(x, env)
+            return
+        if isinstance(node, ast.UnaryOp):
+            return self.check_text(node.operand, env)
+        if isinstance(node, ast.IfExp):
+            for x in (node.test, node.body, node.orelse):
+                self.check_text(x, env)
+            return
+        if isinstance(node, ast.Call):
+            f = node.func
+            ok = (isinstance(f, ast.Name) and f.id in self.TEXT_PURE_CALLS) or \
+                 (isinstance(f, ast.Attribute) and f.attr == "join" and isinstance(f.value, ast.Constant)
+                  and isinstance(f.value.value, str))
+            if not ok:
+                bad(node, f"call of `{ast.unparse(f)}` (not in the whitelist of effect-free builtins)")
+            if node.keywords:
+                bad(node, "keyword arguments")
+            for x in node.args:
+                self.check_text(x, env)
+            return
+        bad(node, f"expression {type(node).__name__}")
+
     def all_dropped(self, stmts, env) -> bool:
         for st in stmts:
             if isinstance(st, ast.AugAssign) and isinstance(st.target, ast.Name) and st.target.id in env.dropped \
                     and isinstance(st.value, (ast.JoinedStr, ast.Constant)):
+                self.check_text(st.value, env)
                 continue
             return False
         return True
 
-    def pure_test(self, e) -> bool:
-        return all(isinstance(n, (ast.Name, ast.Attribute, ast.Load)) for n in ast.walk(e))
+    def pure_test(self, e, env) -> bool:
+        if not all(isinstance(n, (ast.Name, ast.Attribute, ast.Load)) for n in ast.walk(e)):
+            return False
+        self.check_text(e, env)      # the test of an `if` that is dropped with its body
+        return True
 
     def block(self, stmts, env: Env, k) -> list[str]:
         if not stmts:
@@ -640,8 +733,10 @@ class MethodTranslator:
 
         if isinstance(st, ast.Pass) or (isinstance(st, ast.Expr) and isinstance(st.value, ast.Constant)):
             return cont(env)
-        if self.mentions_opaque(st) and not isinstance(st, ast.Try):
-            return self.abstracted(st, env, cont)
+        # (round 12, audit item S2) statements that mention ASN1Reader / unpack_ldap_message are no longer
+        # abstracted as a whole: `reader = ASN1Reader(x)`, `while reader:` with the unpack call inside, and
+        # `reader.get_remaining_data()` are translated; only the call `unpack_ldap_message(reader, options)` itself
+        # is the oracle parameter `unpack`.
         if isinstance(st, ast.Return):
             return self.stmt_return(st, env)
         if isinstance(st, ast.Raise):
@@ -658,6 +753,8 @@ class MethodTranslator:
             return self.stmt_for(st, env, cont)
         if isinstance(st, ast.Try):
             return self.stmt_try(st, env, cont)
+        if isinstance(st, ast.While):
+            return self.stmt_while(st, env, cont)
         raise Unsupported(st, f"statement {type(st).__name__} is outside the subset")
 
     # -- simple statements ----------------------------------------------------------------------------
@@ -721,6 +818,10 @@ class MethodTranslator:
             raise Unsupported(st, "raise of something that is not a constructor call")
         cls = e.func.id
         if cls in BUILTIN_EXC:
+            for a_ in e.args:
+                self.check_text(a_, env)
+            if e.keywords:
+                raise Unsupported(st, "keyword argument of a builtin exception")
             return [f"(.error .{BUILTIN_EXC[cls]}, self)"]
         if cls not in self.f.exc_bases:
             raise Unsupported(st, f"raise of unknown exception class {cls}")
@@ -732,7 +833,9 @@ class MethodTranslator:
         else:
             raise Unsupported(st, f"exception class {cls}")
         vals = {f: ("none", ("opt", None)) for f in fields}
-        pos = e.args[1:]       # args[0] is the message text: dropped
+        pos = e.args[1:]       # args[0] is the message text: dropped, after the effect-freeness check
+        if e.args:
+            self.check_text(e.args[0], env)
         for f_, a_ in zip(fields, pos):
             vals[f_] = self.expr(a_, env)[:2]
         for kw in e.keywords:
@@ -762,8 +865,34 @@ class MethodTranslator:
             if self.can_raise_self(val):
                 raise Unsupported(st, "opaque field initialised by a method call")
             return cont(env)
+        # reader = ASN1Reader(x): the reader is the list of its remaining octets
+        if isinstance(val, ast.Call) and ast.unparse(val.func) == "ASN1Reader":
+            if not (isinstance(tgt, ast.Name) and len(val.args) == 1 and not val.keywords):
+                raise Unsupported(st, "ASN1Reader(..) other than `name = ASN1Reader(x)`")
+            lean, ty, prelude = self.expr(val.args[0], env)
+            if ty != "bytes" or prelude:
+                raise Unsupported(st, "ASN1Reader over something that is not bytes")
+            if tgt.id in env.vars and env.vars[tgt.id] != "reader":
+                raise Unsupported(st, f"{tgt.id} rebound to an ASN1Reader")
+            env = env.copy()
+            env.vars[tgt.id] = "reader"
+            env.reader_src.pop(tgt.id, None)
+            if self.field_target(val.args[0]):
+                env.reader_src[tgt.id] = val.args[0].attr      # a view of that bytearray: no in-place change below
+            return [f"let {lname(tgt.id)} : List Nat := {lean}"] + cont(env)
+        # self.f = bytearray(reader.get_remaining_data()): the remaining octets; the call EMPTIES the reader
+        grd = self.get_remaining_data_of(val, env)
+        if grd is not None:
+            if not (self.field_target(tgt) and self.tr.fields.get(tgt.attr) == "bytes"):
+                raise Unsupported(st, "get_remaining_data() assigned to something that is not a bytes field")
+            env = env.copy()
+            if env.reader_src.get(grd) == tgt.attr:
+                env.reader_src.pop(grd)        # the field is REBOUND to a fresh copy, the old object is not changed
+            return [f"let self := {{ self with {lname(tgt.attr)} := {lname(grd)} }}",
+                    f"let {lname(grd)} : List Nat := []"] + cont(env)
         # dropped text
         if isinstance(tgt, ast.Name) and self.is_text_only(val, env):
+            self.check_text(val, env)
             env = env.copy()
             env.dropped.add(tgt.id)
             env.vars.pop(tgt.id, None)
@@ -803,6 +932,17 @@ class MethodTranslator:
         env.dead.discard(tgt.id)
         return self.with_prelude(prelude, [f"let {lname(tgt.id)} : {lean_type(ty)} := {lean}"] + cont(env))
 
+    def get_remaining_data_of(self, val, env):
+        """`R.get_remaining_data()`, possibly inside `bytearray(..)` / `bytes(..)`, R an ASN1Reader local -> R"""
+        if isinstance(val, ast.Call) and isinstance(val.func, ast.Name) and val.func.id in ("bytearray", "bytes") \
+                and len(val.args) == 1 and not val.keywords:
+            val = val.args[0]
+        if (isinstance(val, ast.Call) and isinstance(val.func, ast.Attribute) and val.func.attr == "get_remaining_data"
+                and isinstance(val.func.value, ast.Name) and env.vars.get(val.func.value.id) == "reader"
+                and not val.args and not val.keywords):
+            return val.func.value.id
+        return None
+
     def coerce_field(self, lean, ty, fty, node):
         if ty == fty:
             return lean
@@ -822,6 +962,7 @@ class MethodTranslator:
     def stmt_augassign(self, st, env, cont):
         tgt = st.target
         if isinstance(tgt, ast.Name) and tgt.id in env.dropped:
+            self.check_text(st.value, env)
             return cont(env)
         if not isinstance(st.op, (ast.Add, ast.Sub)):
             raise Unsupported(st, "augmented assignment other than += / -=")
@@ -875,10 +1016,29 @@ class MethodTranslator:
                         f"Res.bind (Res.lift self (setRemove self.{f_} {atom(lean)})) fun {t} self =>",
                         f"let self := {{ self with {f_} := {t} }}"] + cont(env))
                 if fty == "bytes" and meth == "extend" and len(c.args) == 1:
+                    if recv.attr in env.reader_src.values():
+                        raise Unsupported(c, f"in-place change of {recv.attr} while an ASN1Reader views it")
                     lean, ty, prelude = self.expr(c.args[0], env)
                     if ty != "bytes":
                         raise Unsupported(c, "extend with a non-bytes value")
                     return self.with_prelude(prelude, [f"let self := {{ self with {f_} := self.{f_} ++ {atom(lean)} }}"] + cont(env))
+            if isinstance(recv, ast.Name) and meth == "append" and len(c.args) == 1 and not c.keywords \
+                    and isinstance(env.vars.get(recv.id), tuple) and env.vars[recv.id][0] == "list" \
+                    and env.vars[recv.id][1] is not None:
+                lean, ty, prelude = self.expr(c.args[0], env)
+                if ty != env.vars[recv.id][1] or prelude:
+                    raise Unsupported(c, "append of a value of another type")
+                n = lname(recv.id)
+                return [f"let {n} : {lean_type(env.vars[recv.id])} := {n} ++ [{lean}]"] + cont(env)
+            if isinstance(recv, ast.Name) and meth == "insert" and len(c.args) == 2 and not c.keywords \
+                    and isinstance(c.args[0], ast.Constant) and c.args[0].value == 0 and not isinstance(c.args[0].value, bool) \
+                    and isinstance(env.vars.get(recv.id), tuple) and env.vars[recv.id][0] == "list" \
+                    and env.vars[recv.id][1] is not None:
+                lean, ty, prelude = self.expr(c.args[1], env)
+                if ty != env.vars[recv.id][1] or prelude:
+                    raise Unsupported(c, "insert of a value of another type")
+                n = lname(recv.id)
+                return [f"let {n} : {lean_type(env.vars[recv.id])} := [{lean}] ++ {n}"] + cont(env)
         raise Unsupported(c, f"call statement {ast.unparse(c)[:60]} is outside the subset")
 
     # -- method calls ---------------------------------------------------------------------------------
@@ -946,7 +1106,7 @@ class MethodTranslator:
 
     def stmt_if(self, st: ast.If, env, cont, rest_empty):
         # an `if` that only extends an exception text
-        if not st.orelse and self.all_dropped(st.body, env) and self.pure_test(st.test):
+        if not st.orelse and self.all_dropped(st.body, env) and self.pure_test(st.test, env):
             return cont(env)
         nt = self.none_test(st.test, env)
         simple = self.is_simple(st.body, env) and self.is_simple(st.orelse, env)
@@ -1097,7 +1257,13 @@ class MethodTranslator:
              f": List {atom(lean_type(elem_ty))} → St → Res St Unit",
              "  | [], self => (.ok (), self)",
              f"  | {lname(st.target.id)} :: it_, self =>"] + ind(body, 4)
-        self.aux_defs.append(d)
+        cached = self.for_cache.get(id(st))
+        if cached is not None and [ln.replace(cached[0], fname) for ln in cached[1]] == d:
+            self.nfor -= 1
+            fname = cached[0]
+        else:
+            self.aux_defs.append(d)
+            self.for_cache[id(st)] = (fname, d)
         call = f"{fname}{(' ' + argtxt) if argtxt else ''} {lname(st.iter.id)} self"
         return [f"Res.bind ({call}) fun _ self =>"] + cont(env)
 
@@ -1116,6 +1282,110 @@ class MethodTranslator:
                 if isinstance(n, ast.Name) and isinstance(n.ctx, ast.Load) and n.id not in out:
                     out.append(n.id)
         return out
+
+    # -- while reader: (the unpacking loops of `receive`) ------------------------------------------------
+    UNPACK_TYPE = "List Nat → Except Err (Msg × List Nat)"
+
+    def stmt_while(self, st: ast.While, env, cont):
+        """
+            while R:                                      R : ASN1Reader local
+                try:
+                    V = unpack_ldap_message(R, self._packing_options)
+                except NotEnougData:
+                    H...; break                           H: statements of the subset, no loop control
+                B...                                      B: statements of the subset, no loop control
+        becomes a recursive function over a fuel counter carrying R (its remaining octets), the outer locals the
+        body assigns, and `self`.  `unpack R` is the ORACLE for the call: `.ok (V, R')` = the message and the
+        reader position after it, `.error .notEnough` = NotEnougData with the reader where it was, any other
+        `.error e` = the exception class `unpackExc e`, which leaves the loop and the statement.
+        """
+        if st.orelse:
+            raise Unsupported(st, "while ... else")
+        if not (isinstance(st.test, ast.Name) and env.vars.get(st.test.id) == "reader"):
+            raise Unsupported(st, "while over something that is not an ASN1Reader local")
+        R = st.test.id
+        if not st.body or not isinstance(st.body[0], ast.Try):
+            raise Unsupported(st, "while body does not start with try: V = unpack_ldap_message(..)")
+        t, B = st.body[0], st.body[1:]
+        ok = (not t.orelse and not t.finalbody and len(t.body) == 1 and isinstance(t.body[0], ast.Assign)
+              and len(t.body[0].targets) == 1 and isinstance(t.body[0].targets[0], ast.Name)
+              and isinstance(t.body[0].value, ast.Call) and ast.unparse(t.body[0].value.func) == "unpack_ldap_message"
+              and len(t.body[0].value.args) == 2 and not t.body[0].value.keywords
+              and isinstance(t.body[0].value.args[0], ast.Name) and t.body[0].value.args[0].id == R
+              and ast.unparse(t.body[0].value.args[1]) == "self._packing_options"
+              and len(t.handlers) == 1 and t.handlers[0].type is not None
+              and ast.unparse(t.handlers[0].type) == "NotEnougData" and t.handlers[0].name is None
+              and t.handlers[0].body and isinstance(t.handlers[0].body[-1], ast.Break))
+        if not ok:
+            raise Unsupported(t, "try inside while is not `V = unpack_ldap_message(R, self._packing_options)` "
+                                 "/ `except NotEnougData: ...; break`")
+        V = t.body[0].targets[0].id
+        H = t.handlers[0].body[:-1]
+        for s_ in H + B:
+            for n in ast.walk(s_):
+                if isinstance(n, (ast.Break, ast.Continue, ast.Return, ast.Raise, ast.While, ast.For, ast.Try)):
+                    raise Unsupported(n, f"{type(n).__name__} inside the while body")
+        if V in env.vars:
+            raise Unsupported(t, f"{V} is bound before the loop")
+        # loop-carried variables: the reader, then the outer locals the body assigns / appends to
+        carried = [R]
+        for s_ in H + B:
+            for n in ast.walk(s_):
+                nm = None
+                if isinstance(n, ast.Name) and isinstance(n.ctx, ast.Store):
+                    nm = n.id
+                elif isinstance(n, ast.Call) and isinstance(n.func, ast.Attribute) and isinstance(n.func.value, ast.Name) \
+                        and n.func.attr in ("append", "extend", "insert", "clear", "pop", "remove", "add", "discard"):
+                    nm = n.func.value.id
+                if nm is not None and nm in env.vars and nm not in carried:
+                    carried.append(nm)
+        free = [n for n in self.free_names(H + B) if n in env.vars and n not in carried and n != V]
+        self.add_extra("unpack", self.UNPACK_TYPE)
+        self.nwhile += 1
+        fname = f"{self.name}_while{self.nwhile}"
+        tys = [lean_type(env.vars[n]) for n in carried]
+        names = [lname(n) for n in carried]
+        tup = names[0] if len(names) == 1 else "(" + ", ".join(names) + ")"
+        exit_ = [f"(.ok {tup}, self)"]
+        params = ["(unpack : " + self.UNPACK_TYPE + ")"] + [f"({lname(n)} : {lean_type(env.vars[n])})" for n in free]
+        argtxt = " ".join(["unpack"] + [lname(n) for n in free])
+        henv = env.copy()
+        hb = self.block(H, henv, lambda e: list(exit_))
+        benv = env.copy()
+        benv.vars[V] = "msg"
+        bb = self.block(B, benv, lambda e: [f"{fname} {argtxt} fuel_ " + " ".join(names) + " self"])
+        r = lname(R)
+        pats = ", ".join(names)
+        d = [f"/-- the `while {R}:` loop of `{self.defcls}.{self.fn.name}` (line {st.lineno}); `fuel_` bounds the number of",
+             f"    iterations (the caller passes the number of octets left), `unpack` is `unpack_ldap_message` -/",
+             f"def {fname} " + " ".join(params) + " : Nat → " + " → ".join(atom(x) for x in tys) +
+             f" → St → Res St {atom(' × '.join(atom(x) for x in tys))}",
+             f"  | 0, {pats}, self =>",
+             f"    if !({r}).isEmpty then (.error .recursionError, self) else {exit_[0]}",
+             f"  | fuel_ + 1, {pats}, self =>",
+             f"    if !({r}).isEmpty then",
+             f"      (match unpack {r} with",
+             f"      | .error .notEnough =>"] + ind(paren(hb), 8) + [
+             f"      | .error err_ => (.error (unpackExc err_), self)",
+             f"      | .ok ({lname(V)}, {r}) =>"] + ind(paren(bb), 8) + [
+             f"      )",
+             f"    else",
+             f"      {exit_[0]}"]
+        cached = self.for_cache.get(id(st))
+        if cached is not None and [ln.replace(cached[0], fname) for ln in cached[1]] == d:
+            self.nwhile -= 1
+            fname = cached[0]
+        else:
+            self.aux_defs.append(d)
+            self.for_cache[id(st)] = (fname, d)
+        w = self.tmp("w")
+        out = [f"Res.bind ({fname} {argtxt} ({r}).length " + " ".join(names) + f" self) fun {w} self =>"]
+        for i, n in enumerate(carried):
+            proj = w
+            if len(carried) > 1:
+                proj += "".join(".2" for _ in range(i)) + (".1" if i < len(carried) - 1 else "")
+            out.append(f"let {lname(n)} : {lean_type(env.vars[n])} := {proj}")
+        return out + cont(env)
 
     # -- try ------------------------------------------------------------------------------------------
     def exc_ctor_patterns(self, tynode, node):
@@ -1140,7 +1410,8 @@ class MethodTranslator:
         # locals assigned in the body that are bound before: the value the body yields on fall-through
         carried = []
         for s in st.body:
-            if self.mentions_opaque(s):
+            if any(isinstance(n, ast.While) for n in ast.walk(s)):
+                # a statement with a loop: every outer local stored to or changed in place anywhere inside
                 for n, _ in self.abstracted_targets(s, env):
                     if n != "self" and not n.startswith("self.") and n not in carried:
                         carried.append(n)
